@@ -510,7 +510,7 @@ fn dyn_refmut<'a>(cell: &'a RefCell<&'static mut [u8]>) -> LoadedTickArrayMut<'a
 
 /// body of the (b) harnesses: `a_to_b` is a constant of the harness (the hand-over offset is then a constant and
 /// the scans of the 2nd/3rd array run over concrete slot indices), everything else symbolic
-fn seq_vs_ref(ts: u16, a_to_b: bool, max_n: usize, fixed_start_idx: usize) {
+fn seq_vs_ref(ts: u16, a_to_b: bool, max_n: usize, fixed_start_idx: usize) -> u8 {
     let tsi = ts as i32;
     let tia = TA * tsi;
     let n: usize = kani::any();
@@ -547,11 +547,15 @@ fn seq_vs_ref(ts: u16, a_to_b: bool, max_n: usize, fixed_start_idx: usize) {
     // offset of the search tick in the first array: floor((ti - start) / spacing)
     let o = if start_idx < n && in_range(starts[start_idx], ti, tsi, a_to_b) { (ti - starts[start_idx]).div_euclid(tsi) } else { 0 };
     let e = ref_seq(n, &starts, &bm, ti, o, tsi, a_to_b, start_idx);
-    kani::cover!(matches!(r, Ok((i, _)) if i == start_idx + 1), "found in the next array");
-    kani::cover!(matches!(r, Ok((i, t)) if i == start_idx + 1 && i < 3 && (a_to_b || t == starts[i]) && (!a_to_b || t == starts[i] + 87 * tsi)), "roll-over finds the first slot of the next array (slot 0 rightwards / slot 87 leftwards)");
-    kani::cover!(matches!(r, Ok((i, t)) if i + 1 == n && (t == starts[i] || t == starts[i] + tia - 1) && bm[i] == 0), "edge tick of the last supplied array");
-    kani::cover!(matches!(r, Ok((_, t)) if t == MIN_TICK_INDEX || t == MAX_TICK_INDEX), "protocol bound");
-    kani::cover!(matches!(&r, Err(x) if acode(x) == ecode(ErrorCode::InvalidTickArraySequence)) && start_idx < n && in_range(starts[start_idx], ti, tsi, a_to_b), "non-adjacent next array");
+    let mut seen: u8 = 0;
+    if matches!(&r, Err(x) if acode(x) == ecode(ErrorCode::TickArraySequenceInvalidIndex)) { seen |= 32; }
+    if start_idx < n {
+        if matches!(r, Ok((i, _)) if i == start_idx + 1) { seen |= 1; }
+        if matches!(r, Ok((i, t)) if i == start_idx + 1 && i < 3 && (a_to_b || t == starts[i]) && (!a_to_b || t == starts[i] + 87 * tsi)) { seen |= 2; }
+        if matches!(r, Ok((i, t)) if i + 1 == n && (t == starts[i] || t == starts[i] + tia - 1) && bm[i] == 0) { seen |= 4; }
+        if matches!(r, Ok((_, t)) if t == MIN_TICK_INDEX || t == MAX_TICK_INDEX) { seen |= 8; }
+        if matches!(&r, Err(x) if acode(x) == ecode(ErrorCode::InvalidTickArraySequence)) && in_range(starts[start_idx], ti, tsi, a_to_b) { seen |= 16; }
+    }
     match (&r, &e) {
         (Ok(x), Ok(y)) => assert!(x == y, "sequence search == reference"),
         (Err(x), Err(y)) => assert!(acode(x) == *y, "sequence search error == reference"),
@@ -564,6 +568,15 @@ fn seq_vs_ref(ts: u16, a_to_b: bool, max_n: usize, fixed_start_idx: usize) {
         assert!(*t >= starts[*i] && *t < starts[*i] + tia);
     }
     core::mem::forget(r);
+    seen
+}
+
+fn seq_covers(seen: u8) {
+    kani::cover!(seen & 1 != 0, "found in the next array");
+    kani::cover!(seen & 2 != 0, "roll-over finds the first slot of the next array (slot 0 rightwards / slot 87 leftwards)");
+    kani::cover!(seen & 4 != 0, "edge tick of the last supplied array");
+    kani::cover!(seen & 8 != 0, "protocol bound");
+    kani::cover!(seen & 16 != 0, "non-adjacent next array => InvalidTickArraySequence");
 }
 
 /// (b) SwapTickSequence::get_next_initialized_tick_index == reference; 2 dynamic array(s), start_array_index 0 (both concrete: symbolic ones ran out of memory / time), symbolic valid start indexes, 128-bit bitmaps, search tick; direction a2b; spacing 64; the per-array search is replaced by its reference from (a)
@@ -579,7 +592,7 @@ fn seq_vs_ref(ts: u16, a_to_b: bool, max_n: usize, fixed_start_idx: usize) {
 #[kani::stub(<::whirlpool::state::DynamicTickArrayLoader as ::whirlpool::state::TickArrayType>::get_tick, stub_dyn_get_tick_unreachable)]
 #[kani::stub(<::whirlpool::state::DynamicTickArrayLoader as ::whirlpool::state::TickArrayType>::update_tick, stub_dyn_update_unreachable)]
 fn c10_b_seq_n2_idx0_a2b_ts64() {
-    seq_vs_ref(64, true, 2, 0);
+    seq_covers(seq_vs_ref(64, true, 2, 0));
 }
 
 /// (b) SwapTickSequence::get_next_initialized_tick_index == reference; 2 dynamic array(s), start_array_index 0 (both concrete: symbolic ones ran out of memory / time), symbolic valid start indexes, 128-bit bitmaps, search tick; direction b2a; spacing 64; the per-array search is replaced by its reference from (a)
@@ -595,7 +608,7 @@ fn c10_b_seq_n2_idx0_a2b_ts64() {
 #[kani::stub(<::whirlpool::state::DynamicTickArrayLoader as ::whirlpool::state::TickArrayType>::get_tick, stub_dyn_get_tick_unreachable)]
 #[kani::stub(<::whirlpool::state::DynamicTickArrayLoader as ::whirlpool::state::TickArrayType>::update_tick, stub_dyn_update_unreachable)]
 fn c10_b_seq_n2_idx0_b2a_ts64() {
-    seq_vs_ref(64, false, 2, 0);
+    seq_covers(seq_vs_ref(64, false, 2, 0));
 }
 
 /// (b) start_array_index beyond the supplied arrays => TickArraySequenceInvalidIndex (2 arrays, index 2), direction symbolic
@@ -611,11 +624,9 @@ fn c10_b_seq_n2_idx0_b2a_ts64() {
 #[kani::stub(<::whirlpool::state::DynamicTickArrayLoader as ::whirlpool::state::TickArrayType>::get_tick, stub_dyn_get_tick_unreachable)]
 #[kani::stub(<::whirlpool::state::DynamicTickArrayLoader as ::whirlpool::state::TickArrayType>::update_tick, stub_dyn_update_unreachable)]
 fn c10_b_seq_n2_idx2_ts64() {
-    if kani::any() {
-        seq_vs_ref(64, true, 2, 2);
-    } else {
-        seq_vs_ref(64, false, 2, 2);
-    }
+    let seen = if kani::any() { seq_vs_ref(64, true, 2, 2) } else { seq_vs_ref(64, false, 2, 2) };
+    kani::cover!(seen & 32 != 0, "ran off the supplied arrays");
+    assert!(seen & 32 != 0, "start_array_index beyond the supplied arrays => TickArraySequenceInvalidIndex");
 }
 
 // ---------------------------------------------------------------------------------------------
@@ -662,7 +673,8 @@ fn start_indexes_vs_ref(ts: u16) {
     let tsi = ts as i32;
     let tia = TA * tsi;
     let x = if a_to_b { tc } else { tc + tsi };
-    kani::assume(q >= -6000 && q <= 6000);
+    let qmax = MAX_TICK_INDEX / tia + 2; // |q * tia| stays far below i32::MAX
+    kani::assume(q >= -qmax && q <= qmax);
     let e0 = q * tia;
     kani::assume(e0 <= x && x < e0 + tia); // unique multiple of tia
     let step = if a_to_b { -tia } else { tia };
@@ -677,7 +689,7 @@ fn start_indexes_vs_ref(ts: u16) {
         }
         k += 1;
     }
-    kani::cover!(v.len() == 3, "three arrays");
+    kani::cover!(v.len() == 3 || (tia > MAX_TICK_INDEX && v.len() == 2), "maximal number of arrays (3; 2 for full-range-only spacings)");
     kani::cover!(v.len() == 1, "clipped to one array");
     kani::cover!(!a_to_b && e0 > tc, "shifted: current tick one spacing below the next array");
     kani::cover!(v.len() > 0 && v[0] < MIN_TICK_INDEX, "starts in the MIN array");
